@@ -1,7 +1,13 @@
 /- The fact values the C17 theorems are proved for (and the oracle runs the model with). -/
 import EinoV.Model.C17
+import EinoV.Model.C17Late
+import EinoV.Model.C17Utils
 namespace EinoV.Expected.C17
 def facts : EinoV.C17.Facts :=
   { storeByIndex := true, goroutineRecovers := true, taskPassedAsArg := true,
     handlerConsulted := true, executorRecovers := true }
+/-- family `late`: the tools' context is the caller's, nothing the node does ends it -/
+def ctxFacts : EinoV.C17.CtxFacts := { notScoped := true, fromCaller := true }
+/-- family `utils`: the request object is made inside the call -/
+def ufacts : EinoV.C17.UFacts := { freshPerCall := true }
 end EinoV.Expected.C17
